@@ -5,6 +5,7 @@ import os
 import fam_l
 import fam_misc
 import fam_f
+import fam_k
 from fam_l import base_consts
 from vlib import Inconclusive, build_harness, log
 
@@ -142,6 +143,8 @@ CHECKS = {
     "C09": dict(level="model_checking", run=fam_f.run_family_f),
     "C10": dict(level="model_checking", run=fam_f.run_family_f),
     "C11": dict(level="model_checking", run=fam_f.run_family_f),
+    "C13": dict(level="model_checking", run=fam_k.run_family_k),
+    "C14": dict(level="model_checking", run=fam_k.run_family_k),
     "C15": dict(level="model_checking", run=run_l(plans_c15)),
     "C17": dict(level="fault_enumeration", run=run_l(plans_c17)),
     "C18": dict(level="model_checking", run=run_l(plans_c18)),
